@@ -124,6 +124,7 @@ func zzReset(c *zzCase) {
 		seq = append(seq, int64(v))
 	}
 	zzclock.ZZClockSet(seq)
+	zzclock.ZZGhostReset(false)
 	zzclock.ZZSchedSetSelects(c.Selects)
 	zzclock.ZZSchedSet(c.Sched)
 	zzCur = c
@@ -208,8 +209,8 @@ func symSameObject(a, b []byte) bool {
 	return &a[:cap(a)][cap(a)-1] == &b[:cap(b)][cap(b)-1]
 }
 func symKnown(id string, inRegion bool)  {}
-func symGhost(on bool)                   {}
-func symReleased(p interface{}) bool     { return false }
+func symGhost(on bool)                   { zzclock.ZZGhostReset(on) }
+func symReleased(p interface{}) bool     { return zzclock.ZZGhostIsReleased(p) }
 func symNote(s string)                   {}
 
 func zzRender(v interface{}) string {
@@ -324,7 +325,7 @@ func TestZZReplay(t *testing.T) {
 			timedOut = true
 		}
 		if !timedOut {
-			res.Failed = zzFailed
+			res.Failed = append(zzFailed, zzclock.ZZGhostFailed()...)
 			res.Observed = zzObserved
 		}
 		b, _ := json.Marshal(res)
@@ -596,6 +597,110 @@ func ZZSchedGo(f func()) {
 		f()
 	}()
 	<-started
+}
+
+// ZZPool is a deterministic stand-in for sync.Pool during replay: Get returns the most recently Put item.
+type ZZPool struct {
+	New   func() any
+	mu    sync.Mutex
+	items []any
+}
+
+func (p *ZZPool) Get() any {
+	p.mu.Lock()
+	defer p.mu.Unlock()
+	if n := len(p.items); n > 0 {
+		v := p.items[n-1]
+		p.items = p.items[:n-1]
+		return v
+	}
+	if p.New != nil {
+		return p.New()
+	}
+	return nil
+}
+
+func (p *ZZPool) Put(v any) {
+	p.mu.Lock()
+	p.items = append(p.items, v)
+	p.mu.Unlock()
+}
+
+// ---- ownership ghost state of pooled messages (C12), same rules as the engine's ----
+
+var (
+	zzGhostMu       sync.Mutex
+	ZZGhostOn       bool
+	zzGhostReleased = map[interface{}]bool{}
+	ZZGhostFailures []string
+)
+
+func ZZGhostReset(on bool) {
+	zzGhostMu.Lock()
+	ZZGhostOn, zzGhostReleased, ZZGhostFailures = on, map[interface{}]bool{}, nil
+	zzGhostMu.Unlock()
+}
+
+func zzGhostFail(label string) {
+	for _, f := range ZZGhostFailures {
+		if f == label {
+			return
+		}
+	}
+	ZZGhostFailures = append(ZZGhostFailures, label)
+}
+
+// ZZGhostUse is inserted at the start of every method of pool.Message.
+func ZZGhostUse(m interface{}, inPool bool) {
+	zzGhostMu.Lock()
+	defer zzGhostMu.Unlock()
+	if ZZGhostOn && !inPool && zzGhostReleased[m] {
+		zzGhostFail("ghost: pooled message used after release")
+	}
+}
+
+var zzPoolDepth = map[uint64]int{}
+
+func ZZPoolEnter() { zzGhostMu.Lock(); zzPoolDepth[zzGoID()]++; zzGhostMu.Unlock() }
+func ZZPoolLeave() { zzGhostMu.Lock(); zzPoolDepth[zzGoID()]--; zzGhostMu.Unlock() }
+func ZZInPool() bool {
+	zzGhostMu.Lock()
+	defer zzGhostMu.Unlock()
+	return zzPoolDepth[zzGoID()] > 0
+}
+
+func ZZGhostReleaseEnter(m interface{}) {
+	zzGhostMu.Lock()
+	defer zzGhostMu.Unlock()
+	if ZZGhostOn && zzGhostReleased[m] {
+		zzGhostFail("ghost: pooled message released twice without being re-acquired")
+	}
+}
+
+func ZZGhostReleased(m interface{}) {
+	zzGhostMu.Lock()
+	if ZZGhostOn {
+		zzGhostReleased[m] = true
+	}
+	zzGhostMu.Unlock()
+}
+
+func ZZGhostAcquired(m interface{}) {
+	zzGhostMu.Lock()
+	delete(zzGhostReleased, m)
+	zzGhostMu.Unlock()
+}
+
+func ZZGhostIsReleased(m interface{}) bool {
+	zzGhostMu.Lock()
+	defer zzGhostMu.Unlock()
+	return zzGhostReleased[m]
+}
+
+func ZZGhostFailed() []string {
+	zzGhostMu.Lock()
+	defer zzGhostMu.Unlock()
+	return append([]string(nil), ZZGhostFailures...)
 }
 
 func ZZClockNow() time.Time {
